@@ -27,6 +27,7 @@ SetOf(seq) == {seq[i] : i \in DOMAIN seq}
 ObsSt(e) == [ conn  |-> SetOf(e.st.conn),
               addr  |-> {p \in Peers : e.st.resa[p]},
               known |-> [p \in Peers |-> SetOf(e.st.known[p])],
+              feats |-> [p \in Peers |-> {x \in SetOf(e.st.feats[p]) : x.f \in RemoteNames}],
               subs  |-> SetOf(e.st.subs),
               binds |-> SetOf(e.st.binds),
               csub  |-> SetOf(e.st.csub),
@@ -40,7 +41,9 @@ NormDg(d) == [k |-> d.k, ok |-> d.ok, ref |-> d.ref, src |-> d.src, dst |-> d.ds
 ObsOutSeq(e, p) == [i \in DOMAIN e.out[p] |-> NormDg(e.out[p][i])]
 ObsOut(e) == [p \in Peers |-> SetOf(ObsOutSeq(e, p))]
 
-NormAct(a) == IF a.a = "discover" THEN [a EXCEPT !.ents = SetOf(@)] ELSE a
+NormAct(a) == IF a.a = "discover" THEN [a EXCEPT !.ents = SetOf(@)]
+              ELSE IF a.a = "ann" THEN [a EXCEPT !.items = [i \in DOMAIN @ |-> [@[i] EXCEPT !.fs = SetOf(@)]]]
+              ELSE a
 
 NoDup(seq) == \A i, j \in DOMAIN seq : seq[i] = seq[j] => i = j
 
@@ -52,6 +55,9 @@ ObsDefects(e) ==
     \cup (IF NoDup(e.st.subids) /\ NoDup(e.st.bindids) /\ NoDup(e.st.subs) /\ NoDup(e.st.binds)
              /\ \A p \in Peers : \A i \in DOMAIN e.out[p] : NoDup(e.out[p][i].ids) /\ Len(e.out[p][i].ids) = Len(e.out[p][i].ents)
           THEN {} ELSE {"ids"})
+    \* the tree names only catalogue features, each at most once, each resolvable by its address
+    \cup (IF \A p \in Peers : NoDup(e.st.feats[p]) /\ \A i \in DOMAIN e.st.feats[p] : e.st.feats[p][i].f \in RemoteNames
+          THEN {} ELSE {"tree"})
     \cup (IF \A p \in Peers : /\ e.st.res[p] = (p \in SetOf(e.st.conn))
                               /\ (e.st.resa[p] => e.st.res[p])
                               /\ (e.st.res[p] => "0" \in SetOf(e.st.known[p]))
@@ -61,7 +67,7 @@ Comp(x, c) == CASE c = "out"   -> x.out
                 [] c = "ev"    -> x.ev
                 [] c = "ret"   -> x.ret
                 [] c = "conn"  -> <<x.st.conn, x.st.addr>>
-                [] c = "known" -> x.st.known
+                [] c = "known" -> <<x.st.known, x.st.feats>>
                 [] c = "subs"  -> x.st.subs
                 [] c = "binds" -> x.st.binds
                 [] c = "csub"  -> x.st.csub
